@@ -56,6 +56,7 @@ class ConScenario(Scenario):
         #   collide: the peer's own request carried the ID the CON is going to use (separate ID spaces must not mix)
         #   class: the tuning is handed over as a TransportTuning subclass, not an instance (as aiocoap-client does)
         #   queued: the CON under test had to wait behind two earlier requests to the same endpoint, each answered in turn
+        #   follower-withdrawn: a second request to the same endpoint was held back behind the CON under test and then withdrawn
         self.params = {"source": source, "ACK_TIMEOUT": at, "ACK_RANDOM_FACTOR": arf, "MAX_RETRANSMIT": mr, "uniform": uni, "pre": pre}
         self.name = "S-CON-%s-%s-%s-%s-%s-%s" % (source, at, arf, mr, uni, pre)
         self.K = K
@@ -133,6 +134,13 @@ class ConScenario(Scenario):
                 del w.rnd_mm.uniform_calls[:-1]
                 if not all(f.response.done() and f.response.exception() is None for f in st.early):
                     st.violations.append(Violation("earlier-request-unanswered", "both answered", [repr(f.response) for f in st.early], "tokenmanager.py", {}, key="early-unanswered"))
+            if pre == "follower-withdrawn":
+                fm = Message(code=GET, uri_path=["follower"])
+                fm.remote = st.node.remote(SERVER)
+                fr = st.node.ctx.request(fm, handle_blockwise=False)
+                w.loop.settle()
+                fr.response.cancel()
+                w.loop.settle()
             # a bystander: an unrelated request to another endpoint, registered later, that must not be touched
             b = Message(code=GET, uri_path=["by"], _mtype=1)
             b.remote = st.node.remote(OTHERIP)
@@ -379,7 +387,7 @@ def scenarios(tier, K):
     # forced collisions of message IDs (default tuning only)
     for (a, f, m) in ((0.5, 1.0, 1), (7, 3.0, 4), (2, 1.5, 4)):
         out.append(ConScenario("block2", a, f, m, "hi", K))
-    for src, pres in (("request", ("strayack", "strayrst", "collide", "older", "class", "queued")), ("separate", ("collide", "class")),
+    for src, pres in (("request", ("strayack", "strayrst", "collide", "older", "class", "queued", "follower-withdrawn")), ("separate", ("collide", "class")),
                       ("notification", ("collide", "class"))):
         for pre in pres:
             for (a, f, m) in ((2, 1.5, 4), (0.5, 1.0, 1)):
